@@ -1,5 +1,6 @@
 import McpModel.Base.Proto
 import McpModel.Gate.Monitor
+import McpModel.Gate.Custom
 /-!
 Driver for E3 `gate`: replays the harness's envelope descriptors on the admission model and evaluates
 the C06 / C02 monitors on the IMPLEMENTATION's observations.
@@ -230,9 +231,76 @@ def clauseText (m : Msg) (mon : Mon) (x : Raw) : Clause → String
   | .unsupportedVersion => "C06: unsupported per-request version not answered with -32022 listing the supported versions"
   | .removedMethod => s!"C06: {m.mname} is removed from the 2026-07-28 protocol but was not answered method-not-found"
   | .discoverLegacy => "C06: server/discover served to a legacy request"
+  | .initializedTwice => "C06: repeated initialized notification accepted: the InitializedHandler ran again although it had already run for an earlier notifications/initialized of this session"
   | .f16 want => s!"C02: F16 initialize with null or undecodable params answered with code 0 instead of {showW want} (its own unmarshalParams wraps no coded error)"
   | .f17 want => s!"C02: F17 id on notifications/cancelled answered {x.w} by the cancellation preempter instead of {showW want}"
   | .codeWrong want => s!"C02: {m.mname} ({repr m.req.params}, id={m.req.hasId}) answered {x.w}, the property requires {showW want}"
+
+/-! ## stream `custom`: custom methods on the sessions of one server (Custom.lean)
+
+op:   `creg <hex name>`                      obs: `ok|shadows`
+op:   `copen <mem|http>`                     obs: `ok|fail<status>`
+op:   `chs <k>`                              obs: `ok|fail|na`
+op:   `ccall <k> <hex name> <id|noid> <shape>`   obs: `w=<..> http=<-|status> h=<n>` -/
+
+def parseCOp : List String → Option Custom.Op
+  | ["creg", n] => (hexToString n).map .reg
+  | ["copen", "mem"] => some (.openS .mem)
+  | ["copen", "http"] => some (.openS .http)
+  | ["copen", "cli"] => some (.openS .cli)
+  | ["chs", k] => k.toNat?.map .hs
+  | ["ccall", k, n, id, shape] => do
+    let k ← k.toNat?
+    let n ← hexToString n
+    let sh ← parseShape shape
+    if id != "id" && id != "noid" then none
+    pure (.call { k := k, name := n, hasId := id == "id", params := sh })
+  | _ => none
+
+def showCObs : Custom.Obs → String
+  | .ack true => "ok"
+  | .ack false => "refused"
+  | .na => "na"
+  | .unreadable => "?"
+  | .called o => s!"w={showW o.w} http={match o.http with | some n => toString n | none => "-"} h={o.ran}"
+
+def showCRes (kind : Custom.Kind) : Custom.Res → String
+  | .ok => "ok"
+  | .shadows => "shadows"
+  | .fail => "fail"
+  | .na => "na"
+  | r => showCObs (Custom.obsOf kind r)
+
+def parseCObs (op : Custom.Op) (impl : String) : Custom.Obs :=
+  match op with
+  | .call _ =>
+    if impl == "na" then .na else
+    match field "w" impl, field "http" impl, (field "h" impl).bind String.toNat? with
+    | some w, some h, some n =>
+      let http : Option (Option Nat) := if h == "-" then some none else h.toNat?.map some
+      (match http with
+        | some hs => (let o : Custom.CObs := { w := parseW w, http := hs, ran := n }
+                      if showCObs (.called o) == impl then .called o else .unreadable)
+        | none => .unreadable)
+    | _, _, _ => .unreadable
+  | .reg _ => if impl == "ok" then .ack true else if impl == "shadows" then .ack false else .unreadable
+  | .openS _ => if impl == "ok" then .ack true else if impl.startsWith "fail" then .ack false else .unreadable
+  | .hs _ => if impl == "ok" then .ack true else if impl == "fail" then .ack false else if impl == "na" then .na else .unreadable
+
+def cclauseText (op : Custom.Op) (impl : String) : Custom.Clause → String
+  | cl =>
+    let name := match op with | .call c => c.name | _ => ""
+    match cl with
+    | .multi => s!"C02: call of the custom method {name} answered more than once"
+    | .stray => s!"C02: response bearing an id that was not the request's (custom method {name})"
+    | .malformed => "C02: response with neither result nor error"
+    | .notifAnswered => s!"C02: notification answered (custom method {name} sent without id)"
+    | .beforeInit => s!"C06: custom method {name} reached its handler, or was not refused, on a session on which no initialize was accepted: {impl}"
+    | .dropped => s!"C02: call of the REGISTERED custom method {name} on an initialized session received no response bearing its id (dropped): {impl}"
+    | .unknownCode => s!"C02: call of the unknown method {name} not answered method-not-found (-32601; a 4xx without a message where the HTTP transport pre-validates): {impl}"
+    | .paramsCode => s!"C02: undecodable params of the registered custom method {name} not answered -32602 (or its handler ran): {impl}"
+    | .ranTwice => s!"C02: the handler of the custom method {name} ran more than once for one call"
+    | .unreadable => "C02: unreadable observation"
 
 /-! ## engine -/
 
@@ -241,6 +309,8 @@ structure DState where
   mon : Mon := {}
   prevRaw : String := "-/0/"   -- the previous observation's `st` field as printed (quoted by clause texts)
   pid : String := ""     -- property under check (`property <PID>` record): only its clauses are reported
+  cs : Custom.State := {}    -- stream `custom`: the model's server and sessions
+  cm : Custom.Mem := {}      -- stream `custom`: the monitor's memory
 
 def pidTok : PID → String
   | .C02 => "C02"
@@ -259,6 +329,9 @@ def engine : Engine DState where
     match toks with
     | ["reset"] => ({ pid := d.pid }, { model := "ok" })
     | ["property", p] => ({ d with pid := p }, { model := "ok" })
+    -- `hold`: from here on the user's notification handlers of the case park until the next envelope has
+    -- been written (a schedule, not an input of the session: the model's step is the same)
+    | ["hold"] => (d, { model := "ok" })
     | ["tr", spec] =>
       match parseTr spec with
       | none => (d, { model := "bad-op" })
@@ -266,6 +339,19 @@ def engine : Engine DState where
         let tv := transportVersions f
         ({ d with st := fresh tv, mon := { d.mon with tv := tv } }, { model := s!"sv={showVersions tv}" })
     | _ =>
+      match parseCOp toks with
+      | some op =>
+        (match op with
+          | .call c => if Custom.isStandard c.name then none else some op
+          | _ => some op) |>.elim (d, { model := "bad-op" }) fun op =>
+        let kind := Custom.kindOf d.cs op
+        let (cs', res) := Custom.step d.cs op
+        let obs := parseCObs op impl
+        let cl := match Custom.monitor d.cm op obs with
+          | some c => if d.pid == "" || d.pid == pidTok c.pid then some (cclauseText op impl c) else none
+          | none => none
+        ({ d with cs := cs', cm := Custom.memNext d.cm op obs }, { model := showCRes kind res, violated := cl })
+      | none =>
       match parseMsg toks with
       | none => (d, { model := "bad-op" })
       | some m =>
